@@ -150,7 +150,8 @@ def sub_robust_curve(case):
     out, lopt = smooth.run_variant(variant, yy, nd, {"llas": llas, "p": p})
     _on_grid("ws2d%s(robust)" % variant[:-2], lopt, llas)
     o = np.asarray(out).astype(np.int64)
-    if np.abs(o).max() >= 32000:
+    if np.abs(o).max() >= 20000:
+        # data are within +-10000: values beyond twice that come from edge extrapolation, which may also have wrapped
         return "curve_leaves_int16"
     support, miss = smooth.whittaker_support(o, y, valid, lopt)
     desc = "(n=%d, %d valid, lambda=%.6g, p=%r, y=%s -> %s)" % (y.size, int(valid.sum()), lopt, p, fmt(np.where(valid, y, np.nan), 16), fmt(o, 16))
